@@ -102,7 +102,8 @@ ESel == UNION {{[f |-> "E", len |-> len, j |-> j] : j \in 0..Pow(EKeys, len) - 1
 \* ---------------------------------------------------------------- family S: structured arrays around the run boundaries
 SLens == IF Tier = "thorough" THEN <<31, 32, 33, 63, 64, 65, 95, 96, 97, 127, 128, 129, 255, 256, 257, 511, 512, 513, 1025>>
          ELSE <<31, 32, 33, 64, 65, 129, 257>>
-Shapes == <<"sorted", "reversed", "sawtooth", "organpipe", "fewkeys", "allequal", "revblocks", "twokeys-alt">>
+Shapes == <<"sorted", "reversed", "sawtooth", "organpipe", "fewkeys", "allequal", "revblocks", "twokeys-alt",
+            "sortedlast", "sortedtail">>      \* presorted input with one / three small keys appended
 MinOf2(a, b) == IF a < b THEN a ELSE b
 ShapeKey(sh, n, i) ==       \* i = 0..n-1
   CASE sh = "sorted"    -> i
@@ -113,6 +114,8 @@ ShapeKey(sh, n, i) ==       \* i = 0..n-1
     [] sh = "allequal"  -> 5
     [] sh = "revblocks" -> (n - i) \div 32          \* blocks of equal keys, descending: whole runs move past each other
     [] sh = "twokeys-alt" -> (i + 1) % 2
+    [] sh = "sortedlast" -> IF i = n - 1 THEN 0 ELSE i + 1
+    [] sh = "sortedtail" -> IF i >= n - 3 THEN i - (n - 3) ELSE i + 5
 SSel == {[f |-> "S", li |-> li, si |-> si] : li \in 1..Len(SLens), si \in 1..Len(Shapes)}
 
 \* Initial states are NG groups and every case is the successor of its group, so that TLC's workers share the work
